@@ -160,3 +160,14 @@ claim("C04",
       "DESIGN.md §3 C04")
 
 na("C03", "relational semantics of SELECT over all tables and query shapes is value-level and no sound static argument in reach bounds it; the structural clauses that exist (stage order R-LIM-1, order-preserving result slots R-PAR-1) are run under C07/C12; the remaining planned clauses (truth-test table, join/set dispatch) are not built yet")
+
+claim("C19",
+      "Absence of all panics and hangs is undecidable; decided are the panic sources this code base actually has, each on every call site: "
+      "(R-ERR-1) wrong-error-variable nil dereference; (R-ERR-2) all 224 unchecked type assertions to value/json types discharged by dominating tests, interprocedural type-sets, paired tables or pool agreement; "
+      "(R-ERR-3) every worker goroutine registers a defer that reaches recover() unconditionally; (R-ERR-4) no Header lookup result is used as an index while its error is discarded; (R-ERR-5) non-constant integer divisors exclude 0; "
+      "(R-ERR-6) every error type carries a non-zero code and cli.Exit maps the rest; (R-ERR-7) sizes passed to make/strings.Repeat/Intn are size-derived or have a proven lower and finite upper bound (interval evaluation); "
+      "(R-ERR-9) decremented indices are ≥ 0; (R-ERR-10) float→int conversions exclude NaN/±Inf; (R-LOCK-5) lock retries are bounded. "
+      "Eighteen genuine Fatal-Error / crash defects found by these rules were repaired in /repo; one is a recorded known finding (unbounded LPAD length).",
+      "Not decided: general index/slice upper bounds and overflow-corrupted bounds (needs relational interval analysis, e.g. SUBSTR with a huge length), hangs other than the lock retry, rectangularity of loaded tables (value-level), lib/terminal's completer indices, R-ERR-8 (nil in type-switch default: not built). AST-typed assertions are fixed by the grammar. Interval assumptions: lengths < 2^47, counters < 2^50.",
+      "SSA branch facts, interprocedural type-set fixpoint, demand-driven interval evaluation, must-pass path rules",
+      "DESIGN.md §3 C19")
